@@ -523,6 +523,9 @@ sub0_ctx_unsubscribe(sub0_ctx *ctx, const void *buf, size_t sz)
 			nni_msg_free(msg);
 		}
 	}
+	if (nni_lmq_empty(&ctx->lmq) && (ctx == &sock->master)) {
+		nni_pollable_clear(&sock->readable);
+	}
 	nni_mtx_unlock(&sock->lk);
 
 	nni_free(topic->buf, topic->len);
